@@ -7,11 +7,13 @@ CONSTANTS
   DevZeroBudget = FALSE
   DevRootRepetition = FALSE
   DevStalePonder = FALSE
+  DevPartialIteration = FALSE
 INVARIANT TypeOK
 INVARIANT BoardRestored
 INVARIANT OneAnswer
 INVARIANT AnswerLegal
 INVARIANT PonderFresh
+INVARIANT WholeIterations
 PROPERTY Answered
 PROPERTY ImplementsObs
 CHECK_DEADLOCK FALSE
